@@ -45,6 +45,10 @@ func genC04(t *rapid.T) C04Case {
 				target = target.FromSub
 			}
 			target.Until = &h.TimeSpec{Abs: h.PeriodEnd(h.BaseTS+off, res)}
+			if target.AsOf == nil {
+				// UNTIL needs an ASOF; start the window a few periods before the data
+				target.AsOf = &h.TimeSpec{Abs: h.PeriodEnd(h.BaseTS, res) - 2*res}
+			}
 			if rapid.Bool().Draw(t, fmt.Sprintf("unal%d", i)) {
 				target.Until.Abs += res / 3
 			}
